@@ -33,10 +33,10 @@ Section Kernels.
   Definition solid_angle_den (Y1 Y2 Y3 : V) (y1 y2 y3 : F) : F :=
     y1 * y2 * y3 + y1 * dot Y2 Y3 + y2 * dot Y3 Y1 + y3 * dot Y1 Y2.
 
-  (* the degeneracy test shared by solid_angle and analyticD3::f:  fabs(d)<1e-10  (absolute, d has the
-     dimension of a volume -- DESIGN 4 #16); kept as ONE definition so that a repaired (relative) test is a
-     one-line change here *)
-  Definition coplanar_test (d y1 y2 y3 : F) : bool := fltb o (fabs o d) thr_1e10.
+  (* the degeneracy test shared by solid_angle and analyticD3::f, as repaired in /repo (fix: relative coplanarity
+     test):  fabs(d)<=1e-10*(y1*y2*y3).  The pinned tree had the absolute  fabs(d)<1e-10  (d has the dimension of a
+     volume -- DESIGN 4 #16; Geom/CoplanarForms.v keeps both forms and the refutation of the absolute one). *)
+  Definition coplanar_test (d y1 y2 y3 : F) : bool := fleb o (fabs o d) (thr_1e10 * (y1 * y2 * y3)).
 
   Definition solid_angle (x v1 v2 v3 : V) : F :=
     let Y1 := vsub v1 x in
